@@ -209,21 +209,27 @@ def execute(case):
                 edzed.IfOutput('no_such_block')
             elif neg == 'unknown_add_output':
                 edzed.DataEdit.add_output('k', 'no_such_block')
-            if case['explicit']:
-                circuit.finalize()
-                obs['after_finalize'] = inspect_circuit(circuit, case, objs, events, filters)
-                obs['frozen'] = frozen(circuit, objs)
         except Exception as err:
             raised = err
         obs['raised'] = None if raised is None else type(raised).__name__
         if raised is not None:
             return
+        if case['explicit']:
+            try:
+                circuit.finalize()
+            except Exception as err:
+                # the application may catch this and carry on: a second attempt (the start below)
+                # must not accept what the first one refused
+                obs['finalize_raised'] = type(err).__name__
+            else:
+                obs['after_finalize'] = inspect_circuit(circuit, case, objs, events, filters)
+                obs['frozen'] = frozen(circuit, objs)
         sim = harness.Running()
         await sim.__aenter__()
         obs['started'] = sim.init_error is None
         obs['start_error'] = None if circuit.error is None else type(circuit.error).__name__
         if sim.init_error is None:
-            if not case['explicit']:
+            if not case['explicit'] or 'finalize_raised' in obs:
                 obs['after_finalize'] = inspect_circuit(circuit, case, objs, events, filters)
                 obs['frozen'] = frozen(circuit, objs)
             obs['functional'] = functional(circuit, objs, filters)
@@ -233,15 +239,20 @@ def execute(case):
 
     if neg is not None:
         if obs['raised'] is None and obs.get('started'):
-            res.fail('C15.invalid_accepted', f"negative case {neg!r}: no error at construction, in finalize() "
-                     "or at start; the circuit runs")
+            if 'finalize_raised' in obs:
+                res.fail('C15.invalid_accepted_second_attempt', f"negative case {neg!r}: finalize() raised "
+                         f"{obs['finalize_raised']}, but the start right afterwards accepted the same circuit")
+            else:
+                res.fail('C15.invalid_accepted', f"negative case {neg!r}: no error at construction, in finalize() "
+                         "or at start; the circuit runs")
         res.classes = ['negative: ' + neg,
-                       'rejected at construction/finalize' if obs['raised'] else 'start failed']
+                       'rejected at construction/finalize' if obs['raised'] or 'finalize_raised' in obs
+                       else 'start failed']
         res.nontrivial = False
         res.outcome = {'raised': obs['raised'], 'start_error': obs.get('start_error')}
         return res
-    if obs['raised'] is not None:
-        res.fail('C15.valid_refused', f"valid specification refused: {obs['raised']}")
+    if obs['raised'] is not None or 'finalize_raised' in obs:
+        res.fail('C15.valid_refused', f"valid specification refused: {obs['raised'] or obs['finalize_raised']}")
         return res
     if not obs.get('started'):
         res.fail('C15.valid_start_failed', f"start failed: {obs.get('start_error')}")
@@ -377,17 +388,25 @@ def inspect_circuit(circuit, case, objs, events, filters):
         ctrl = byname.get(f['ctrl'])
         try:
             out = flt({'x': 1})
+            passed = verdict(out) == 'pass' or (verdict(out) == 'data' and out == {'x': 1})
             if f['kind'] == 'add_output':
                 ok = isinstance(out, dict) and out.get('k', 'missing') is ctrl.output and out.get('x') == 1
             elif f['kind'] == 'ifoutput':
-                ok = (out == {'x': 1}) if ctrl.output else out is None
+                ok = passed if ctrl.output else verdict(out) == 'reject'
             else:
-                ok = out is None if ctrl.is_initialized() else out == {'x': 1}
+                ok = verdict(out) == 'reject' if ctrl.is_initialized() else passed
             if not ok:
                 errs.append(('C15.filter_control', f"{f}: filter returned {out!r}, control output {ctrl.output!r}"))
         except Exception as err:
             errs.append(('C15.filter_control', f"{f}: {err!r}"))
     return errs
+
+
+def verdict(ret):
+    """what Event.send() makes of a filter's result"""
+    if isinstance(ret, dict):
+        return 'data'
+    return 'pass' if ret else 'reject'
 
 
 def frozen(circuit, objs):
@@ -422,8 +441,8 @@ def functional(circuit, objs, filters):
             if not (isinstance(out, dict) and out['k'] is ctrl.output):
                 errs.append(('C15.filter_control', f"running: {f}: {out!r} vs output {ctrl.output!r}"))
         elif f['kind'] == 'ifoutput':
-            if (out is not None) != bool(ctrl.output):
+            if (verdict(out) != 'reject') != bool(ctrl.output):
                 errs.append(('C15.filter_control', f"running: {f}: {out!r} vs output {ctrl.output!r}"))
-        elif out is not None:
+        elif verdict(out) != 'reject':
             errs.append(('C15.filter_control', f"running: {f}: NotIfInitialized passed {out!r}"))
     return errs
